@@ -50,7 +50,7 @@ def one(d):
             if prop and c != prop:
                 continue
             for attempt in range(3):
-                pr = subprocess.run([os.path.join(V, 'bin/govc'), '-repo', repo, '-prop', c, '-tier', 'quick', '-out', os.path.join(tmp, f'ev{w}.json'),
+                pr = subprocess.run([os.environ.get('GOVC', os.path.join(V, 'bin/govc')), '-repo', repo, '-prop', c, '-tier', 'quick', '-out', os.path.join(tmp, f'ev{w}.json'),
                                      '-known', os.path.join(V, 'KNOWN_FINDINGS.txt'), '-replays', os.path.join(tmp, f'replays{w}')], capture_output=True, text=True)
                 out = pr.stdout
                 if pr.returncode in (0, 1) and 'property=' in out:
